@@ -229,6 +229,65 @@ example :
   have hB : Spec.jsrSlashSafeB E tbl = true := by decide
   refine ⟨hB, slashSafe_of_B E tbl hB, by decide, by decide, by decide, by decide⟩
 
+/-! ### non-vacuity (audit): every theorem instantiated with all its hypotheses on a table with a
+    variable root, a regex variable and several candidate routes, on requests that ARE routed (the
+    two sides of each equation are not both "404"), and the equations are not trivially true -/
+namespace C14Example
+
+/-- `[0-9]+` evaluated faithfully: it does not match the empty segment -/
+def E1 : ReEnv :=
+  ⟨fun e s => if e = "[0-9]+".toList then s.any Char.isDigit else true,
+   fun e s => if e = "[0-9]+".toList then !s.isEmpty && s.all Char.isDigit else !s.isEmpty⟩
+def rd (id : Nat) (m p : String) : RouteDecl :=
+  { id := id, method := m.toList, relPath := p.toList, consumes := [], produces := [], conds := [], noct := [] }
+def services : List Service :=
+  [ { id := 0, root := "/users".toList, routes := [rd 1 "GET" "/{id:[0-9]+}", rd 2 "GET" "/me", rd 3 "PUT" "/{id:[0-9]+}"] },
+    { id := 1, root := "/orgs/{org}".toList, routes := [rd 4 "GET" "/things", rd 5 "DELETE" ""] } ]
+def cfgC : Config := { router := .curly, services := services }
+def cfgJ : Config := { router := .jsr, services := services }
+def p42 : Str := "/users/42".toList
+def get (p : Str) : Req := { method := "GET".toList, path := p }
+
+/-- hypotheses of `C14_curly` / `C14_jsr_partial_B`; what the routers answer for p (p/ by the theorems) -/
+example :
+    (∃ c ∈ p42, c ≠ '/') ∧ (p42 = [] ∨ p42.getLast? ≠ some '/') ∧ Spec.jsrSlashSafeB E1 cfgJ = true ∧
+    route E1 cfgC (get p42) = .selected 0 1 [("id".toList, "42".toList)] ∧
+    route E1 cfgJ (get p42) = .selected 0 1 [("id".toList, "42".toList)] ∧
+    route E1 cfgJ { get p42 with method := "DELETE".toList } = .error 405 (some ["GET".toList, "PUT".toList]) ∧
+    route E1 cfgJ (get "/orgs/acme/things".toList) = .selected 1 4 [("org".toList, "acme".toList)] := by
+  decide
+
+example : route E1 cfgC { get p42 with path := p42 ++ ['/'] } = route E1 cfgC (get p42) :=
+  C14_curly E1 cfgC rfl (get p42) p42 (by decide) rfl
+example : route E1 cfgJ { get p42 with path := p42 ++ ['/'] } = route E1 cfgJ (get p42) :=
+  C14_jsr_partial_B E1 cfgJ rfl (by decide) (get p42) p42 (by decide) rfl
+/-- `slashSafe_of_B` gives the hypothesis `hs` of the theorems that are stated with `Jsr.slashSafe` -/
+theorem safeJ : Jsr.slashSafe E1 cfgJ := slashSafe_of_B E1 cfgJ (by decide)
+theorem safeC : Jsr.slashSafe E1 cfgC := slashSafe_of_B E1 cfgC (by decide)
+example := C14_jsr_partial E1 cfgJ rfl safeJ { get p42 with method := "DELETE".toList } p42 (by decide) rfl
+
+/-- the equation of `C14_jsr_partial` is not trivially true: a request path and the same path with
+    ANOTHER character appended are routed differently on this table -/
+example : route E1 cfgJ { get p42 with path := p42 ++ ['x'] } ≠ route E1 cfgJ (get p42) := by decide
+
+/-- the computed Allow header: GET, PUT at `/users/42` (two routes of three), for p and p/ -/
+example : Cors.computeAllowedMethods E1 cfgC.services p42 = some ["GET".toList, "PUT".toList] := by decide
+example := C14_options_allow_partial E1 cfgC safeC p42 (by decide)
+example := C14_options_allow_partial_B E1 cfgJ (by decide) p42 (by decide)
+example := C14_options_filter_partial E1 cfgC safeC { method := "OPTIONS".toList, path := p42, origin := "http://o".toList } p42
+  (by decide) rfl
+example := C14_options_filter_partial_B E1 cfgJ (by decide) { method := "OPTIONS".toList, path := p42 } p42 (by decide) rfl
+example : Options.optionsOut E1 cfgC { method := "OPTIONS".toList, path := p42 } =
+    some ⟨[("Allow".toList, "GET,PUT".toList), (Cors.hAllowOrigin, []), (Cors.hAllowHeaders, []),
+           (Cors.hAllowMethods, "GET,PUT".toList)], false⟩ := by decide
+/-- `C14_cors_partial` on a preflight with computed methods, which is granted -/
+def pre : Cors.CorsReq := { method := "OPTIONS".toList, path := p42, origin := "http://o".toList, acrm := "PUT".toList }
+example := C14_cors_partial E1 Str.toLowerAscii {} cfgC safeC pre p42 (by decide) rfl
+example : (Cors.corsOut Str.toLowerAscii E1 {} cfgC pre).map (·.added.take 1) =
+    some [(Cors.hAllowMethods, "GET,PUT".toList)] := by decide
+
+end C14Example
+
 /-! The frame condition (Lemmas/StateShape.lean): the code has exactly the state this property's model
     accounts for — no further package-level variable, struct type or field; constants as modelled. -/
 -- also: Restful.StateShape.globals_shape
